@@ -93,48 +93,53 @@ def showSet (xs : List Nat) : String :=
 def showTris (ts : List Tri) : String :=
   "{" ++ ";".intercalate ((sortBy triLt ts).map showTri) ++ "}"
 
-partial def runMesh (h : Nat → UInt64) (tri : Nat → Tri) (m : Mesh.Mesh) :
+/-- Two mesh handles: ops act on `m`; `cp` makes `o` a `Copy()` of `m`, `sw` swaps the handles,
+`am` is `m.AddMesh(o)`.  A copy shares face pointers (ids) with its source and nothing else. -/
+partial def runMeshO (h : Nat → UInt64) (tri : Nat → Tri) (m o : Mesh.Mesh) :
     List String → List String → Option (List String)
   | [], acc => some acc.reverse
+  | "cp" :: rest, acc => runMeshO h tri m { faces := m.faces, index := none } rest acc
+  | "sw" :: rest, acc => runMeshO h tri o m rest acc
+  | "am" :: rest, acc => runMeshO h tri (o.faces.foldl (fun mm f => mm.add h tri f) m) o rest acc
   | "add" :: f :: rest, acc => do
       let f ← f.toNat?
-      runMesh h tri (m.add h tri f) rest acc
+      runMeshO h tri (m.add h tri f) o rest acc
   | "rem" :: f :: rest, acc => do
       let f ← f.toNat?
-      runMesh h tri (m.remove h tri f) rest acc
+      runMeshO h tri (m.remove h tri f) o rest acc
   | "has" :: f :: rest, acc => do
       let f ← f.toNat?
-      runMesh h tri m rest (boolStr (m.contains f) :: acc)
-  | "num" :: rest, acc => runMesh h tri m rest (toString m.num :: acc)
-  | "faces" :: rest, acc => runMesh h tri m rest (showSet m.faces :: acc)
+      runMeshO h tri m o rest (boolStr (m.contains f) :: acc)
+  | "num" :: rest, acc => runMeshO h tri m o rest (toString m.num :: acc)
+  | "faces" :: rest, acc => runMeshO h tri m o rest (showSet m.faces :: acc)
   | "find1" :: a :: rest, acc => do
       let a ← a.toNat?
       let (m', r) := m.find h tri [a]
-      runMesh h tri m' rest (showSet r :: acc)
+      runMeshO h tri m' o rest (showSet r :: acc)
   | "find2" :: a :: b :: rest, acc => do
       let a ← a.toNat?; let b ← b.toNat?
       let (m', r) := m.find h tri [a, b]
-      runMesh h tri m' rest (showSet r :: acc)
+      runMeshO h tri m' o rest (showSet r :: acc)
   | "find3" :: a :: b :: c :: rest, acc => do
       let a ← a.toNat?; let b ← b.toNat?; let c ← c.toNat?
       let (m', r) := m.find h tri [a, b, c]
-      runMesh h tri m' rest (showSet r :: acc)
+      runMeshO h tri m' o rest (showSet r :: acc)
   | "nbr" :: f :: rest, acc => do
       let f ← f.toNat?
       let (m', r) := m.neighbors h tri f
-      runMesh h tri m' rest (showSet r :: acc)
+      runMeshO h tri m' o rest (showSet r :: acc)
   | "verts" :: rest, acc =>
       let (m', r) := m.vertexSlice h tri
-      runMesh h tri m' rest (showSet r :: acc)
+      runMeshO h tri m' o rest (showSet r :: acc)
   -- derived meshes are specified directly from the current set of faces
-  | "copy" :: rest, acc => runMesh h tri m rest (showSet m.faces :: acc)
-  | "deep" :: rest, acc => runMesh h tri m rest (showTris (m.faces.map tri) :: acc)
-  | "inv" :: rest, acc => runMesh h tri m rest (showTris (specInvert (m.faces.map tri)) :: acc)
+  | "copy" :: rest, acc => runMeshO h tri m o rest (showSet m.faces :: acc)
+  | "deep" :: rest, acc => runMeshO h tri m o rest (showTris (m.faces.map tri) :: acc)
+  | "inv" :: rest, acc => runMeshO h tri m o rest (showTris (specInvert (m.faces.map tri)) :: acc)
   | "map" :: perm :: rest, acc => do
       let π ← (perm.splitOn ",").mapM (·.toNat?)
       let f := fun k => π.getD k k
       let ts := (m.faces.map tri).map fun (a, b, c) => (f a, f b, f c)
-      runMesh h tri m rest (showTris ts :: acc)
+      runMeshO h tri m o rest (showTris ts :: acc)
   | _, _ => none
 
 /-- `mesh <nkeys> <hash>… <ntris> <a,b,c>… <ops>…` -/
@@ -148,7 +153,7 @@ def handleMesh (ws : List String) : Option String := do
   let ts ← ((ws.drop 1).take nt).mapM parseTri
   if ts.length ≠ nt then none
   let tri : Nat → Tri := fun f => ts.getD f (0, 0, 0)
-  let outs ← runMesh h tri Mesh.new (ws.drop (1 + nt)) []
+  let outs ← runMeshO h tri Mesh.new Mesh.new (ws.drop (1 + nt)) []
   some (" ".intercalate outs)
 
 def handleAll (ws : List String) : Option String :=
